@@ -11,6 +11,7 @@
 EXTENDS Beh
 
 CONSTANTS Mode, Toks, MaxToks, Dialects, FlagAlpha, LitFlags
+TokFlags == IF FlagAlpha = "x" THEN <<120>> ELSE <<>>               \* the flag string the token strings are compiled with
 
 VARIABLE str            \* sequence of tokens (each a sequence of code points)
 tvars == <<str>>
@@ -24,6 +25,8 @@ TokSet ==
                           <<123,49,125>>, <<123,48,125>>, <<123,49,44,49,125>> }
     [] Toks = "class" -> { <<91>>, <<93>>, <<94>>, <<45>>, <<97>>, <<98>>, <<92,100>>, <<92,93>>, <<92,45>>, <<45,91>>,
                            <<92,49>>, <<92>> }
+    [] Toks = "xws" -> { <<97>>, <<91>>, <<93>>, <<92>>, <<92, 92>>, <<32>>, <<10>>, <<123, 49, 44>>, <<50, 125>>, <<45>>, <<94>>,
+                         <<92, 100>> }
     [] Toks = "meta" -> { <<97>>, <<98>>, <<40>>, <<41>>, <<91>>, <<93>>, <<123>>, <<125>>, <<92>>, <<63>>, <<42>>,
                           <<43>>, <<124>>, <<46>>, <<94>>, <<36>>, <<32>>, <<9>> }
 FlagSet == {115, 109, 105, 120, 113, 97, 88, 32, 59, 103}      \* s m i x q a X space ; g
@@ -38,6 +41,9 @@ LitInputs(p) ==                                \* the pattern embedded in / dele
   {a \o p \o b : a \in ctx, b \in ctx} \cup {a \o b : a \in ctx, b \in ctx}
   \cup {a \o p \o p \o b : a \in {<<>>, <<97>>}, b \in {<<>>, <<98>>}}
   \cup (IF Len(p) > 1 THEN {SubSeq(p, 1, Len(p) - 1) \o <<97>>, <<97>> \o SubSeq(p, 2, Len(p))} ELSE {})
+  \cup LET flip(c) == IF (c \div 32) % 2 = 0 THEN c + 32 ELSE c - 32          \* near misses: one character replaced by
+           near(c) == {flip(c), c + 1, c - 1} \cap 1..1114111 IN               \*   a neighbour or its "case bit" flipped
+       {[p EXCEPT ![k] = x] : k \in 1..Len(p), x \in UNION {near(p[j]) : j \in 1..Len(p)}}
   \cup LET sw == [k \in 1..Len(p) |-> Counterpart(p[k])] IN                  \* the occurrence in the other case (flag i)
        {a \o sw \o b : a \in {<<>>, <<97>>}, b \in {<<>>, <<98>>}} \cup {sw \o <<120>> \o p}
 LitBeh(p, flags) ==                            \* behaviour for a literal pattern with its own inputs
@@ -50,7 +56,7 @@ LitBeh(p, flags) ==                            \* behaviour for a literal patter
 LitFlagSets == { <<113>>, <<113, 105>>, <<113, 109>>, <<113, 115>>, <<113, 120>>, <<105, 109, 113, 115, 120>> }
 
 EmitTok ==
-  CASE Mode = "tok" -> \A X \in Dialects : PrintSrc(<<Text, <<>>, X>>)
+  CASE Mode = "tok" -> \A X \in Dialects : PrintSrc(<<Text, TokFlags, X>>)
     [] Mode = "flags" -> \A X \in Dialects : PrintSrc(<<<<97>>, Text, X>>)
     [] Mode = "lit" -> \A f \in (IF LitFlags = "all" THEN LitFlagSets ELSE {<<113>>, <<113, 105>>}) :
                          LET b == LitBeh(Text, f) IN IF b = <<>> THEN TRUE ELSE PrintT(<<"B", ToJson(b)>>)
